@@ -8,22 +8,22 @@ def chk(pid, engine, level, text, note, technique, ref):
       "level_claimed":{"category":level,"text":text,"design_ref":ref},"level_note":note,"technique":technique})
 LN="Trusts SimKV as a faithful stand-in for goleveldb's observable semantics (atomic batches, ordered iteration, value copies) and the reference model as the reading of the statement; a clean batch is sampling evidence, not proof."
 chk("C09","ledgersim","exploration",
- "Seeded block/rollback/reopen/re-execute histories on the real chain ledger + block file; after every step every stored height and every index is read back and compared with what was executed, and every lookup of rolled-back data must fail.",
- LN+" Ledger half: Merkle roots of executed blocks are recomputed in the chainsim part when that engine is built.",
+ "Seeded block/rollback/reopen/re-execute histories on the real chain ledger + block file; after every step every stored height and every index is read back and compared with what was executed, and every lookup of rolled-back data must fail. A quarter of the runs are node-level (the engine dispatches to chainsim): blocks of real transactions produced, rolled back and re-executed by the real block executor; stored hash, parent link, transaction/receipt Merkle roots recomputed from the stored data, lookups and chain meta are checked on a reference node and on a twin that goes through the executor's rollback for every block.",
+ LN,
  "deterministic simulation: seeded histories with rollback/reopen faults vs executed-chain model", "DESIGN.md §5 C09")
 chk("C10","ledgersim","exploration",
  "Metamorphic seeded search: the same per-block write sets realised through different orders, noise, caches and reopen must give equal roots; one perturbed element must change the root.",
- LN+" The tx/receipt-root clause is input sampling (no schedule), added with chainsim.",
+ LN+" Includes histories in which blocks are flushed one ahead of their commit with a reader in between. The tx/receipt-root clause is input sampling (no schedule); the roots are recomputed in C09, their perturbation is not built.",
  "deterministic simulation: metamorphic realisations (order, cache, reopen, revert noise) of seeded write sets", "DESIGN.md §5 C10")
 chk("C11","ledgersim","fault_enumeration",
  "For each selected commit of seeded histories every crash image (prefix of state-store batches x prefix of chain-store batches x prefix of block-file writes, as recorded from the running code) is built, reopened, checked and continued; exhaustive per selected commit, histories and commits sampled.",
  LN+" Process-crash semantics (completed writes survive); the blockfile hang is classified from file sizes because an in-process infinite loop cannot be interrupted.",
  "deterministic simulation: exhaustive crash-point enumeration over recorded durable writes per commit", "DESIGN.md §5 C11")
 chk("C12","ledgersim","exploration",
- "Seeded histories with rollbacks to every kind of target (in window, zero, beyond window, above head, head), reopen and re-execution on the real ledger; rolled-back state compared with dumps recorded at commit; refused rollbacks must change nothing.",
+ "Seeded histories with rollbacks to every kind of target (in window, zero, beyond window, above head, head), reopen and re-execution on the real ledger; rolled-back state compared with dumps recorded at commit; refused rollbacks must change nothing. A quarter of the runs are node-level (the engine dispatches to chainsim): a twin node goes through the block executor's own rollback + re-execution for every block and must agree with the reference node in block hash, receipts and state store.",
  LN, "deterministic simulation: seeded histories with rollback/reopen faults vs recorded per-height state", "DESIGN.md §5 C12")
 chk("C13","ledgersim","exploration",
- "Seeded search over operation/commit/reopen/cache-size histories of the real SimpleLedger on a simulated KV disk, every read compared with a map+undo-log reference model; sampling, not proof.",
+ "Seeded search over operation/flush/commit/reopen/cache-size histories (reads and queries between flush and commit, several flushed blocks pending) of the real SimpleLedger on a simulated KV disk, every read compared with a map+undo-log reference model; sampling, not proof.",
  LN+" Interleavings inside the ledger are not at stake (single driver loop).",
  "deterministic simulation: seeded op/fault sequences (reopen, cache eviction) vs reference model", "DESIGN.md §5 C13")
 EXTRA = []
